@@ -120,7 +120,9 @@ func (g *Gen) tail(k int) *big.Int {
 // a kept coefficient of 34/35 digits with an interesting low end
 func (g *Gen) fullCoef() *big.Int {
 	one := big.NewInt(1)
-	switch g.r.Intn(10) {
+	switch g.r.Intn(11) {
+	case 10: // the low 64-bit word is 0, 1 or all ones: a rounding increment carries (or must not carry) across the words
+		return g.resultCoef(g.r.Intn(35))
 	case 0:
 		return new(big.Int).Set(cMax)
 	case 1:
